@@ -4,6 +4,15 @@ import json, os, random
 import vlib
 
 LEVEL = "model_checking"
+MANIFEST = dict(
+    category=LEVEL, design_ref="DESIGN.md §5 C10",
+    text="Smt.tla (map semantics, root injectivity over an injective symbolic hash, canonical shape) is model-checked exhaustively for 5-6 keys; "
+         "every transition of the complete 4-key/2-value/batch<=3 graph is replayed on the real pkg/trie from two differently built source instances "
+         "on families of prefix-colliding 256-bit keys, comparing reads, root (against an independent reference built from the spec), proof-depth shape, "
+         "reopened instances and all historical roots; recorded walks on a long-lived instance are validated by TLC against SmtTrace.tla; "
+         "a large-batch parallel driver extends beyond the bounds.",
+    note="memorydb stands for the disk store; reference root implementation in the harness; sha256 as trie hash (the node uses the same through common.Hasher)",
+    technique="TLA+/TLC exhaustive model; replay of every TLC transition into the real trie; TLC trace validation of recorded walks")
 SPEC_DIR = os.path.join(vlib.SPEC, "state")
 
 
